@@ -32,7 +32,7 @@ pub fn meta() -> CheckMeta {
     CheckMeta {
         id: "C03",
         level: "exploration",
-        rule: "cases: 7 solvers x G-generic non-linear non-autonomous right-hand sides (dim 1-4) x random configurations with tol <= 1e-6; every point of every path is classified as (rk) one step of the published one-step scheme from the previous point with the observed step, or (ms) the multistep formula over the equally spaced preceding points; a point in neither class is a violation. A solve is non-trivial when at least one point was validated by each branch available to its solver; distinct = hash of (solver, problem, configuration)".into(),
+        rule: "cases: 7 solvers x G-generic non-linear non-autonomous right-hand sides (dim 1-4; also as complex systems of dimension 1-2 driven by a real problem of dimension 2n) and at-rest problems set in motion by a smoothly switched-on forcing x random configurations with tol <= 1e-6 and every builder call order; every point of every path is classified as (rk) one step of the published one-step scheme from the previous point with the observed step, or (ms) the multistep formula over the equally spaced preceding points; a point in neither class is a violation. A solve is non-trivial when at least one point was validated by each branch available to its solver; distinct = hash of (solver, problem, configuration)".into(),
         assumptions: vec![
             "one-step formulas must be reproduced to 1e-12 (1+|y|); Adams corrector values within 100 L h^2 tol + floor of the PECE reference (PEC/PECE difference); BDF residual within (1+beta h L) tol + floor".into(),
             "solves that end in an Err item are judged on their prefix (their failure is C05's statement)".into(),
@@ -266,7 +266,7 @@ pub fn judge(rep: &mut Report, solver: Solver, cfg: &Cfg, rhs: &dyn Rhs<f64>, li
 }
 
 fn run_case(rep: &mut Report, solver: Solver, prob: &GenericProblem, cfg: &Cfg, mode: DimMode) {
-    let opts = Opts { budget: 3_000_000, max_items: 4_000, mode, ..Default::default() };
+    let opts = Opts { budget: 3_000_000, max_items: 4_000, mode, order: ((cfg.t1.to_bits() >> 7) % 6) as u8, ..Default::default() };
     let out = solve_real(solver, cfg, &prob.y0, prob, &opts);
     rep.eval();
     rep.count(&format!("{}/solves", solver.name()), 1);
@@ -283,6 +283,136 @@ fn run_case(rep: &mut Report, solver: Solver, prob: &GenericProblem, cfg: &Cfg, 
             if rep.wants_sample() {
                 rep.sample(case().set("points_rk_branch", rk).set("points_multistep_branch", ms).set("derivative_calls", out.calls));
             }
+        }
+    }
+}
+
+/// Complex-valued system whose real and imaginary parts are driven by a real G-generic problem of
+/// dimension 2n: z_j' = f_j(t, Re z, Im z) + i f_{n+j}(t, Re z, Im z). The published schemes are
+/// linear in the state, so a complex step equals the step of the real 2n-system and the complex
+/// 2-norm equals the real one: the same oracle applies to the converted path.
+struct ComplexGeneric<'a> {
+    real: &'a GenericProblem,
+}
+impl<'a> Rhs<C64> for ComplexGeneric<'a> {
+    fn dim(&self) -> usize {
+        self.real.n / 2
+    }
+    fn eval(&self, t: f64, z: &[C64], out: &mut [C64]) {
+        let n = z.len();
+        let mut x = vec![0.0; 2 * n];
+        for j in 0..n {
+            x[j] = z[j].re;
+            x[n + j] = z[j].im;
+        }
+        let mut f = vec![0.0; 2 * n];
+        self.real.eval(t, &x, &mut f);
+        for j in 0..n {
+            out[j] = C64::new(f[j], f[n + j]);
+        }
+    }
+}
+
+fn run_complex_case(rep: &mut Report, solver: Solver, prob: &GenericProblem, cfg: &Cfg, mode: DimMode) {
+    let n = prob.n / 2;
+    let cp = ComplexGeneric { real: prob };
+    let y0c: Vec<C64> = (0..n).map(|j| C64::new(prob.y0[j], prob.y0[n + j])).collect();
+    let opts = Opts { budget: 3_000_000, max_items: 4_000, mode, order: ((cfg.t1.to_bits() >> 7) % 6) as u8, ..Default::default() };
+    let oc = solve_complex(solver, cfg, &y0c, &cp, &opts);
+    rep.eval();
+    rep.count(&format!("{}/complex_solves", solver.name()), 1);
+    let conv = |it: &Item<C64>| match it {
+        Item::Ok(t, y) => Item::Ok(*t, y.iter().map(|c| c.re).chain(y.iter().map(|c| c.im)).collect::<Vec<f64>>()),
+        Item::Err(e) => Item::Err(e.clone()),
+    };
+    let out = Outcome::<f64> {
+        build_err: oc.build_err.clone(),
+        items: oc.items.iter().map(conv).collect(),
+        truncated: oc.truncated,
+        panic: oc.panic.clone(),
+        budget_hit: oc.budget_hit,
+        calls: oc.calls,
+        extra_some: oc.extra_some,
+        extra_calls: oc.extra_calls,
+        extra_items: vec![],
+        dim_mismatch: oc.dim_mismatch,
+    };
+    let case = || J::obj().set("solver", solver.name()).set("field", "Complex<f64> (state = first n + i last n components of the real problem)").set("mode", format!("{:?}", mode)).set("cfg", cfg.to_json()).set("problem", prob.to_json());
+    if out.n_err() > 0 || out.budget_hit {
+        rep.inconclusive("err-or-budget(C05)");
+        rep.count(&format!("{}/err_solves", solver.name()), 1);
+    }
+    rep.count(&format!("{}/solves", solver.name()), 1);
+    if let Some((rk, ms)) = judge(rep, solver, cfg, prob, prob.lip, &prob.y0, &out, &case) {
+        if rk + ms > 0 {
+            rep.count(&format!("{}/complex_points_validated", solver.name()), (rk + ms) as i64);
+            rep.nontrivial(CaseHash::new("c03-complex").u(solver.idx() as u64).fs(&prob.a).fs(&prob.b).f(cfg.t1).f(cfg.tol).0);
+        }
+    }
+}
+
+/// A solution at rest that is set in motion by a forcing switched on smoothly at t_s:
+/// y' = -lambda (y - c) + A s((t - t_s)/w),  s(u) = exp(-1/u) for u > 0, 0 otherwise,  y(t0) = c.
+/// While at rest every right-hand side value is zero at the old time but not at the new one, which
+/// is where "the formula evaluated at the new time" differs from a formula evaluated at the old time
+/// even when an implicit solve takes its "already converged" exit.
+#[derive(Clone, Debug)]
+struct SwitchOn {
+    n: usize,
+    lambda: Vec<f64>,
+    c: Vec<f64>,
+    amp: Vec<f64>,
+    ts: f64,
+    w: f64,
+}
+impl Rhs<f64> for SwitchOn {
+    fn dim(&self) -> usize {
+        self.n
+    }
+    fn eval(&self, t: f64, y: &[f64], out: &mut [f64]) {
+        let u = (t - self.ts) / self.w;
+        let s = if u > 0.0 { (-1.0 / u).exp() } else { 0.0 };
+        for i in 0..self.n {
+            out[i] = -self.lambda[i] * (y[i] - self.c[i]) + self.amp[i] * s;
+        }
+    }
+}
+impl SwitchOn {
+    fn to_json(&self) -> J {
+        J::obj().set("kind", "switch-on: y' = -lambda (y - c) + A s((t - ts)/w), s(u) = exp(-1/u) for u > 0 else 0, y(t0) = c").set("lambda", J::fs(&self.lambda)).set("c", J::fs(&self.c)).set("A", J::fs(&self.amp)).set("ts", self.ts).set("w", self.w)
+    }
+}
+
+fn run_switch_case(rep: &mut Report, solver: Solver, rng: &mut Rng) {
+    let n = 1 + rng.below(2);
+    let p = SwitchOn {
+        n,
+        lambda: (0..n).map(|_| rng.r(0.2, 2.0)).collect(),
+        c: (0..n).map(|_| rng.r(-1.0, 1.0)).collect(),
+        amp: (0..n).map(|_| rng.r(0.5, 2.0) * rng.sign()).collect(),
+        ts: rng.r(-0.5, 0.5),
+        w: rng.r(0.3, 1.5),
+    };
+    let lip = p.lambda.iter().cloned().fold(0.0, f64::max).max(2.0 / p.w);
+    let tol = rng.log10(-9.0, -6.0);
+    let dt_max = if solver == Solver::Euler { 0.01 / lip } else { dtmax_for(solver, lip, tol, rng.r(0.6, 1.5)) };
+    let t0 = p.ts - dt_max * rng.r(3.0, 30.0);
+    let cfg = Cfg { t0, t1: p.ts + p.w * rng.r(1.0, 3.0), dt_min: dt_max * 1e-7, dt_max, tol };
+    let mode = if rng.bool() { DimMode::Static } else { DimMode::Dynamic };
+    let opts = Opts { budget: 3_000_000, max_items: 6_000, mode, order: ((cfg.t1.to_bits() >> 7) % 6) as u8, ..Default::default() };
+    let y0 = p.c.clone();
+    let out = solve_real(solver, &cfg, &y0, &p, &opts);
+    rep.eval();
+    rep.count(&format!("{}/solves", solver.name()), 1);
+    rep.count(&format!("{}/switch_on_solves", solver.name()), 1);
+    let case = || J::obj().set("solver", solver.name()).set("mode", format!("{:?}", mode)).set("cfg", cfg.to_json()).set("problem", p.to_json());
+    if out.n_err() > 0 || out.budget_hit {
+        rep.inconclusive("err-or-budget(C05)");
+        rep.count(&format!("{}/err_solves", solver.name()), 1);
+    }
+    if let Some((rk, ms)) = judge(rep, solver, &cfg, &p, lip, &y0, &out, &case) {
+        if rk + ms > 0 {
+            rep.nontrivial(CaseHash::new("c03-switch").u(solver.idx() as u64).fs(&p.lambda).fs(&p.amp).f(cfg.t0).f(cfg.tol).0);
         }
     }
 }
@@ -321,11 +451,36 @@ pub fn stages(ctx: &Ctx) -> Vec<Stage> {
         let mode = if rng.bool() { DimMode::Static } else { DimMode::Dynamic };
         run_case(rep, solver, &prob, &cfg, mode);
     }));
+    let nc = ctx.tier.pick(7_000, 140_000);
+    st.push(Stage::new("complex", nc, move |i, rep| {
+        let mut rng = Rng::for_case(seed, "c03-complex", i);
+        let solver = Solver::ALL[(i % 7) as usize];
+        let n = 1 + rng.below(2);
+        let prob = GenericProblem::gen(&mut rng, 2 * n);
+        let mut cfg = gen_cfg(&mut rng, solver, prob.lip, (-10.0, -6.0), (0.3, 2.0));
+        if rng.chance(0.4) {
+            let f = if solver.is_adams() { rng.r(2.0, 12.0).min(1.5 / (prob.lip * cfg.dt_max)).max(1.0) } else if solver.is_bdf() { rng.r(1.0, 1.5) } else { rng.r(1.5, 4.0) };
+            cfg.dt_max *= f;
+            cfg.t1 = cfg.t0 + cfg.dt_max * rng.log10(0.3, 1.7);
+        }
+        let mode = if rng.bool() { DimMode::Static } else { DimMode::Dynamic };
+        run_complex_case(rep, solver, &prob, &cfg, mode);
+    }));
+    let nsw = ctx.tier.pick(3_500, 70_000);
+    st.push(Stage::new("switch-on", nsw, move |i, rep| {
+        let mut rng = if i < 70 { Rng::for_case(5150, "c03-switch-anchor", i) } else { Rng::for_case(seed, "c03-switch", i) };
+        let solver = Solver::ALL[(i % 7) as usize];
+        run_switch_case(rep, solver, &mut rng);
+    }));
     st
 }
 
 pub fn thresholds(ctx: &Ctx, rep: &Report) -> Vec<Threshold> {
     let mut t = vec![];
+    for s in Solver::ALL {
+        t.push(Threshold { what: format!("{}: points of complex-valued solves validated", s.name()), required: ctx.tier.pick(1_000.0, 20_000.0), observed: rep.counter(&format!("{}/complex_points_validated", s.name())) as f64 });
+        t.push(Threshold { what: format!("{}: switch-on solves", s.name()), required: ctx.tier.pick(300.0, 6_000.0), observed: rep.counter(&format!("{}/switch_on_solves", s.name())) as f64 });
+    }
     for s in [Solver::Adams5, Solver::Adams3, Solver::BDF6, Solver::BDF2] {
         let rk = rep.counter(&format!("{}/points_rk_branch", s.name())) as f64;
         let ms = rep.counter(&format!("{}/points_ms_branch", s.name())) as f64;
